@@ -739,6 +739,60 @@ fn navigate_with(rep: &mut Report, rd: &mut Reader, fam: &str, text: &str, opts:
 	}
 }
 
+/// Self-consistency of whatever `parse_slice_with` accepts: every fragment's span lies inside the
+/// input, spans are the traversal's in order, and the bytes a span delimits parse (same options) to
+/// that fragment. No reference reader is involved, so this also judges inputs the reference rejects.
+fn navigate_bytes(rep: &mut Report, fam: &str, bytes: &[u8], opts: Opts) {
+	rep.evaluations += 1;
+	let o = crate::real::options(opts);
+	let (v, cm) = match guard(|| Value::parse_slice_with(bytes, o)) {
+		Ok(Ok(x)) => x,
+		Ok(Err(_)) => {
+			rep.count("byte_inputs_refused", 1);
+			return;
+		}
+		Err(p) => {
+			rep.violation("C11:panic", format!("[{}] parse_slice_with panicked on `{}`: {}", fam, show(bytes), p), json!({"sub": "bytes", "bytes": bytes, "options": [opts.truncated, opts.invalid]}));
+			return;
+		}
+	};
+	rep.count("byte_inputs_accepted", 1);
+	let r = guard(|| {
+		let mut n = 0u64;
+		for (i, f) in v.traverse() {
+			let Some(e) = cm.get(i) else { return Err(format!("fragment {} has no code map entry", i)) };
+			let (s, t) = (e.span.start(), e.span.end());
+			if s > t || t > bytes.len() {
+				return Err(format!("fragment {} has span {}..{}, the input has {} bytes", i, s, t, bytes.len()));
+			}
+			let piece = &bytes[s..t];
+			let ok = match f {
+				json_syntax::FragmentRef::Value(x) => matches!(Value::parse_slice_with(piece, o), Ok((y, _)) if y == *x),
+				json_syntax::FragmentRef::Key(k) => matches!(Value::parse_slice_with(piece, o), Ok((Value::String(y), _)) if y.as_str() == k.as_str()),
+				json_syntax::FragmentRef::Entry(en) => {
+					let mut d = vec![b'{'];
+					d.extend_from_slice(piece);
+					d.push(b'}');
+					matches!(Value::parse_slice_with(&d, o), Ok((Value::Object(ob), _)) if ob.len() == 1 && ob.entries()[0] == *en)
+				}
+			};
+			if !ok {
+				return Err(format!("fragment {} ({}) has span {}..{} = `{}`, which does not read back as that fragment", i, match f { json_syntax::FragmentRef::Value(_) => "value", json_syntax::FragmentRef::Key(_) => "key", _ => "entry" }, s, t, show(piece)));
+			}
+			n += 1;
+		}
+		if n as usize != cm.len() {
+			return Err(format!("the traversal has {} fragments, the code map {} entries", n, cm.len()));
+		}
+		Ok(n)
+	});
+	match r {
+		Ok(Ok(n)) => rep.count("offset_checks", n),
+		Ok(Err(m)) => rep.violation("C11:navigation-bytes", format!("[{}] input `{}` (options truncated={} invalid={}): {}", fam, show(bytes), opts.truncated, opts.invalid, m), json!({"sub": "bytes", "bytes": bytes, "options": [opts.truncated, opts.invalid]})),
+		Err(p) => rep.violation("C11:panic", format!("[{}] input `{}`: panic {}", fam, show(bytes), p), json!({"sub": "bytes", "bytes": bytes, "options": [opts.truncated, opts.invalid]})),
+	}
+}
+
 /// Writes `r` as JSON text in which some strings and keys carry an unpaired
 /// surrogate escape (at the end, at the start or in the middle), so that the
 /// text is accepted under the lenient options only.
@@ -942,6 +996,32 @@ pub fn run(cfg: &Config) -> i32 {
 		total.count("valid_token_documents", docs.len() as u64);
 	}
 
+	// byte inputs whose strings hold raw non-ASCII or ill-formed sequences, under every option record:
+	// whatever parse_slice_with accepts, its code map must delimit the caller's bytes
+	{
+		let inserts: [&[u8]; 12] = [b"\xc3\xa9", b"\xf0\x9f\x98\x80", b"\xe2\x82\xac", b"\xff", b"\x80", b"\xc0\xaf", b"\xed\xa0\x80", b"\xf0\x9f\x98", b"\xc3", b"\xf4\x90\x80\x80", b"\xef\xbf\xbd", b"\xe2\x82"];
+		let shapes: [(&[u8], &[u8]); 6] = [(b"[\"", b"\", 12, false]"), (b"{\"k", b"\":[1,2],\"z\":\"s\"}"), (b"\"", b"\""), (b"[[\"a\",{\"b\":\"", b"x\"}],null]"), (b"{\"a\":\"", b"\",\"a\":{\"q\":7}}"), (b" [ 1 , \"", b"\" , { } ] ")];
+		let mut rep = Report::new();
+		for ins in inserts {
+			for (head, tail) in shapes {
+				for twice in [false, true] {
+					let mut doc = head.to_vec();
+					doc.extend_from_slice(ins);
+					if twice {
+						doc.extend_from_slice(b"-");
+						doc.extend_from_slice(ins);
+					}
+					doc.extend_from_slice(tail);
+					for (t, inv) in [(false, false), (true, false), (false, true), (true, true)] {
+						navigate_bytes(&mut rep, "byte-inputs-under-every-option-record", &doc, Opts { truncated: t, invalid: inv });
+						rep.distinct_by_construction(1);
+					}
+				}
+			}
+		}
+		total.merge(rep);
+	}
+
 	// conversions with a wrong-kind value planted at every position
 	let n = cfg.budget(100_000, 2_000_000);
 	let rep = parallel(cfg.threads, shards, |i| {
@@ -1085,6 +1165,12 @@ fn small_docs(max: usize) -> Vec<String> {
 
 pub fn replay_case(case: &serde_json::Value) -> Option<Vec<String>> {
 	let mut rep = Report::new();
+	if case.get("sub")?.as_str()? == "bytes" {
+		let bytes: Vec<u8> = case.get("bytes")?.as_array()?.iter().filter_map(|b| b.as_u64().map(|b| b as u8)).collect();
+		let o = case.get("options")?.as_array()?;
+		navigate_bytes(&mut rep, "replay", &bytes, Opts { truncated: o.first()?.as_bool()?, invalid: o.get(1)?.as_bool()? });
+		return Some(rep.violations.iter().map(|v| format!("[{}] {}", v.signature, v.what)).collect());
+	}
 	let doc = case.get("doc")?.as_str()?;
 	match case.get("sub")?.as_str()? {
 		"navigate" => {
